@@ -35,6 +35,10 @@ EXTENDS Integers, Sequences, FiniteSets, TLC, SequencesExt
 
 CONSTANTS Cases,     \* the cases explored: small descriptors (see ExportMC)
           Expand(_), \* descriptor -> [mode, chunks, fmt, cfg, size, preds]
+          IndexFrom, \* "chunk": an exported index is the chunk's own ChunkIndex (the contract)
+                     \* "position": an implementation-shaped variant that takes a chunk whose
+                     \*             index is 0 for "unnumbered" and writes its position in the
+                     \*             exported slice instead; kept only to be refuted by TLC
           Slice      \* "halfopen": batch = chunks[i, i+size)   (the contract)
                      \* "closed":   an implementation-shaped variant that treats the end
                      \*             index as inclusive and so drops the boundary row;
@@ -164,7 +168,14 @@ Rec(fmt, cfg, c) ==
       [] fmt = "chroma"            -> [top |-> ChromaTop(c, cfg), meta |-> ChromaMeta(c)]
       [] fmt = "weaviate"          -> [top |-> WeavTop(c, cfg), meta |-> WeavMeta(c)]
 
-Records(fmt, cfg, chunks) == [i \in 1..Len(chunks) |-> Rec(fmt, cfg, chunks[i])]
+\* the record at (0-based) position pos of the exported slice
+RecAt(fmt, cfg, c, pos) ==
+    LET r == Rec(fmt, cfg, c) IN
+    IF IndexFrom = "position" /\ c.index = 0 /\ "chunk_index" \in DOMAIN r.top
+    THEN [r EXCEPT !.top = [r.top EXCEPT !["chunk_index"] = I(pos)]]
+    ELSE r
+
+Records(fmt, cfg, chunks) == [i \in 1..Len(chunks) |-> RecAt(fmt, cfg, chunks[i], i - 1)]
 
 IsDsv(fmt) == fmt \in {"csv", "tsv"}
 ColsOf(fmt, cfg, chunks) == IF IsDsv(fmt) THEN Cols(cfg, chunks) ELSE <<>>
@@ -198,6 +209,7 @@ Ids(chunks) == [i \in 1..Len(chunks) |-> chunks[i].id]
 
 \* ------------------------------------------------- the machine
 \* a case expands to [mode |-> "export" | "batch" | "stream" | "filter", chunks, fmt, cfg, size, preds]
+\* (preds: the filter chain; for the exporter modes it is applied first and its result exported)
 VARIABLES cas,       \* the case (a small descriptor, see Expand)
           i,         \* chunks consumed by the exporter loop
           emitted,   \* batches so far: [number, start, end, lo, hi]; the slice actually
@@ -210,7 +222,13 @@ evars == <<cas, i, emitted, cur, k, done>>
 
 X == Expand(cas)
 
-NChunks == Len(X.chunks)
+\* the collection handed to an exporter: the source chunks, or - when the case carries a
+\* predicate chain - what ChunkCollection.Filter* selected from them.  It is an arbitrary
+\* sequence of chunks: merged from several documents, reordered, filtered, with repeated
+\* or missing index values; nothing a chunk says about itself depends on where it stands.
+Coll == IF X.mode = "filter" THEN X.chunks ELSE Sel(X.chunks, X.preds)
+
+NChunks == Len(Coll)
 
 Init == /\ cas \in Cases
         /\ i = 0 /\ emitted = <<>> /\ cur = [p \in 1..Len(Expand(cas).chunks) |-> p] /\ k = 0 /\ done = FALSE
@@ -221,8 +239,8 @@ BatchOf(number, from, to) ==
      hi |-> IF Slice = "closed" /\ to < NChunks THEN to - 1 ELSE to]
 
 \* what that pass writes
-BPart(b) == SubSeq(X.chunks, b.lo + 1, b.hi)
-BIds(b)  == [n \in 1..(b.hi - b.lo) |-> X.chunks[b.lo + n].id]
+BPart(b) == SubSeq(Coll, b.lo + 1, b.hi)
+BIds(b)  == [n \in 1..(b.hi - b.lo) |-> Coll[b.lo + n].id]
 BCols(b) == ColsOf(X.fmt, X.cfg, BPart(b))
 BRecs(b) == Records(X.fmt, X.cfg, BPart(b))
 
@@ -276,8 +294,27 @@ Flat(bs) == FoldLeft(LAMBDA a, b : a \o BIds(b), <<>>, bs)
 TypeOK == /\ i \in 0..NChunks /\ k \in 0..Len(X.preds) /\ done \in BOOLEAN
 
 \* batching / streaming keep every chunk exactly once, in order
-Conservation == Flat(emitted) = Ids(SubSeq(X.chunks, 1, i))
-Complete     == (done /\ X.mode # "filter") => Flat(emitted) = Ids(X.chunks)
+Conservation == Flat(emitted) = Ids(SubSeq(Coll, 1, i))
+Complete     == (done /\ X.mode # "filter") => Flat(emitted) = Ids(Coll)
+
+\* position independence: the record written for a chunk is a function of that chunk (and
+\* of the format and configuration) alone - not of its position in the collection, in the
+\* batch or in the stream, nor of its neighbours; hence every exported scalar equals the
+\* chunk's own field, and exporting a permutation gives the permuted records
+PositionIndependent ==
+    \A b \in 1..Len(emitted) : \A r \in 1..Len(BRecs(emitted[b])) :
+        /\ BRecs(emitted[b])[r] = Rec(X.fmt, X.cfg, Coll[emitted[b].lo + r])
+        /\ BRecs(emitted[b])[r] = Records(X.fmt, X.cfg, <<Coll[emitted[b].lo + r]>>)[1]
+OrderEquivariant ==
+    (done /\ X.mode # "filter") => Records(X.fmt, X.cfg, Reverse(Coll)) = Reverse(Records(X.fmt, X.cfg, Coll))
+\* the index a record carries is the chunk's own ChunkIndex wherever the format has one
+OwnIndex ==
+    \A b \in 1..Len(emitted) : \A r \in 1..Len(BRecs(emitted[b])) :
+        LET rec == BRecs(emitted[b])[r]
+            c == Coll[emitted[b].lo + r] IN
+        /\ ("chunk_index" \in DOMAIN rec.top => rec.top["chunk_index"] = I(c.index))
+        /\ ("chunk_index" \in DOMAIN rec.meta => rec.meta["chunk_index"] = I(c.index))
+        /\ ("chunkIndex" \in DOMAIN rec.meta => rec.meta["chunkIndex"] = I(c.index))
 
 \* one record per chunk of the batch, and the batch bookkeeping is consistent
 BatchShape == \A b \in 1..Len(emitted) :
